@@ -36,6 +36,7 @@ type c07Replay struct {
 	// TargetForm: "" absolute | "rel" (relative to a working directory the process has just changed to) |
 	// "cwd" (no target option, the working directory is the target)
 	TargetForm string `json:"target_form,omitempty"`
+	Bullets    string `json:"bullets,omitempty"` // bullet characters of the Markdown spelling, cycled per line ("" = all '-')
 }
 
 // options that do not concern Mkdir: names are validated and nothing leaves the target whatever else is passed
@@ -44,6 +45,9 @@ var c07Extras = []string{"json", "yaml", "toml", "noiter", "strict", "fmt", "nil
 func c07Case(c *rep.Ctx, r c07Replay) {
 	f := enum.Build(r.Depth, r.Names)
 	doc := enum.Spell(r.Depth, r.Names, enum.Canonical)
+	if r.Bullets != "" {
+		doc = enum.Spell(r.Depth, r.Names, enum.Spelling{Unit: "  ", Bullets: []byte(r.Bullets)})
+	}
 	j := fsx.NewJail("c07")
 	defer j.Remove()
 	before := fsx.Snapshot(j.Root)
@@ -191,6 +195,11 @@ func init() {
 								continue
 							}
 							c07Case(c, c07Replay{Kind: "c07", Depth: d, Names: names, Route: rt, Exts: ex})
+						}
+						if n <= 3 && (rt == "md" || rt == "md-dry-mkdir") && roots >= 2 {
+							// several roots written with different bullets, with the massive option
+							c07Case(c, c07Replay{Kind: "c07", Depth: d, Names: names, Route: rt, Extra: "massive", Bullets: "-*+"})
+							c07Case(c, c07Replay{Kind: "c07", Depth: d, Names: names, Route: rt, Extra: "massive", Bullets: "+-"})
 						}
 						if n <= 2 && rt != "md-dry-output" {
 							for _, ex := range c07Extras {
